@@ -106,6 +106,15 @@ func check(line, obs string) string {
 		return fmt.Sprintf("Tink does not decrypt the independent implementation's ciphertext: %s", got)
 	}
 	ct := hx.UH(field(obs, "ct"))
+	if s.Scheme == "env" {
+		if field(obs, "drawn") != fmt.Sprint(s.IVLen()) {
+			return "Encrypt drew " + field(obs, "drawn") + " random bytes"
+		}
+		if ref, ok := s.Independent(iv, pt, ad); ok && !bytes.Equal(ref, ct) {
+			return "envelope differs from be32(len)||encDEK||payload computed with the standard library"
+		}
+		return ""
+	}
 	pre := s.Prefix()
 	if len(ct) != len(pre)+s.IVLen()+len(pt)+s.TagLen() {
 		return fmt.Sprintf("ciphertext length %d, want %d", len(ct), len(pre)+s.IVLen()+len(pt)+s.TagLen())
@@ -130,7 +139,11 @@ func class(line, obs string) string {
 	if err != nil {
 		return ""
 	}
-	return fmt.Sprintf("%s/%s/%s/%d/p%s/a%s", s.Scheme, s.Route, s.Variant, len(s.Key), LenClass(len(b[2])), LenClass(len(b[3])))
+	sch := s.Scheme
+	if sch == "env" {
+		sch = "env:" + s.DEK + ":" + s.KEK.Scheme
+	}
+	return fmt.Sprintf("%s/%s/%s/%d/p%s/a%s", sch, s.Route, s.Variant, len(s.Key), LenClass(len(b[2])), LenClass(len(b[3])))
 }
 
 func gen(r *hx.Rng, n int, tier string) []string {
